@@ -234,7 +234,7 @@ def h8_forced_accumulator(ctx, tk, rule, funcs):
     integers (and bool) to the platform integer; pinning makes totals wrap"""
     for f in funcs:
         fa = ctx.fa(f)
-        for n, c in find_calls(fa, lambda c: np_call(c, {"sum", "cumsum", "prod", "cumprod"}) or (c.a[0].k == "attr" and c.a[0].a[1] in ("sum", "cumsum", "prod", "cumprod"))):
+        for n, c in find_calls(fa, lambda c: np_call(c, {"sum", "cumsum", "prod", "cumprod", "divide", "true_divide", "mean", "average"}) or (c.a[0].k == "attr" and c.a[0].a[1] in ("sum", "cumsum", "prod", "cumprod", "mean"))):
             dt = dict(c.a[2]).get("dtype")
             if dt is None:
                 continue
@@ -589,6 +589,8 @@ def h23_uninitialised_result(ctx, tk, rule, funcs):
     """np.empty / np.empty_like hand out uninitialised memory: returned as the data of a result they must be filled
     completely, or be known to have no cells (a dominating `size == 0` test)"""
     for f in funcs:
+        if f.name in ("empty_like", "empty"):
+            continue            # the handler of np.empty_like itself: uninitialised by contract
         fa = ctx.fa(f)
         for r in fa.cfg.returns():
             if r.ast.value is None:
@@ -604,6 +606,15 @@ def h23_uninitialised_result(ctx, tk, rule, funcs):
                     core = inner[0]
                 if not np_call(core, {"empty", "empty_like"}):
                     continue
+                # only a buffer that nobody fills: the allocation is written in the return expression itself, or bound to a name
+                # that is used nowhere else (not stored into, not passed as out=, not handed to a filling helper)
+                direct = core.node is not None and any(x is core.node for x in ast.walk(r.ast))
+                if not direct:
+                    names = [tg.id for st in ast.walk(f.node) if isinstance(st, ast.Assign) and st.value is core.node for tg in st.targets if isinstance(tg, ast.Name)]
+                    uses = sum(1 for x in ast.walk(f.node) if isinstance(x, ast.Name) and x.id in names and isinstance(x.ctx, ast.Load))
+                    in_ret = sum(1 for x in ast.walk(r.ast) if isinstance(x, ast.Name) and x.id in names)
+                    if not names or uses > in_ret:
+                        continue
                 zero = any(((t.k == "cmp" and t.a[0] == "==" and is_const(t.a[2], 0) and truth) or (t.k == "cmp" and t.a[0] == "!=" and is_const(t.a[2], 0) and not truth)
                             or (t.k == "attr" and t.a[1] == "size" and not truth) or (t.k == "call" and call_name(t) == "len" and not truth))
                            for t, truth, _ in facts_at(fa, r))
@@ -627,40 +638,64 @@ def h24_memory_layout_as_shape(ctx, tk, rule, funcs):
                                      "sliced, transposed or Fortran-ordered inputs" % ast.unparse(x), node=x, engine="KB")
 
 
+def _total(t):
+    """a scalar summary of an array / geometry: size, len(), n_rows, np.size, a sum / extremum, one element, arithmetic of those"""
+    if t.k == "const":
+        return True
+    if t.k == "call" and ((t.a[0].k == "global" and t.a[0].a[0] in ("len", "int")) or (attr_chain(t.a[0]) or ("",))[-1] in ("size", "sum", "max", "min", "prod", "count_nonzero")):
+        return True
+    if t.k == "attr" and t.a[1] in ("size", "n_rows", "ndim"):
+        return True
+    if t.k == "bin":
+        return _total(t.a[1]) and _total(t.a[2])
+    if t.k == "sub" and (t.a[1].k == "const" or (t.a[1].k == "un" and t.a[1].a[1].k == "const")):
+        return True
+    return False
+
+
 def h25_totals_equality_fast_path(ctx, tk, rule, funcs):
-    """a fast path guarded by an equality of *totals* built from single elements and counts of the geometry
-    (lengths[0] * n_rows == size, last_end - first_start == size): finitely many scalars cannot establish that every
-    row has the same length, or that the rows are contiguous and in order - lengths (2, 1, 3) and an interior permutation
-    satisfy such equalities too"""
-    from .guards import aggregate_only
-    GEOM = ("lengths", "starts", "ends", "_codes")
+    """a branch (not a refusal) decided by an equality of two *totals* - sizes, counts, sums, single elements and arithmetic
+    of them (lengths[0] * n_rows == size, last - first == size - 1, size == n_rows, np.size(keys) == n_keys, sum == 0):
+    finitely many scalars cannot establish that every row has the same length, that positions are contiguous and in order,
+    that all keys are named once, or that every value is zero.  Such a test can refuse (a necessary condition failed) but it
+    cannot select a shortcut"""
+    from .guards import refusals
     for f in funcs:
         fa = ctx.fa(f)
+        ref = {t.id for t, _ in refusals(fa)}
         for n in fa.cfg.nodes:
-            if n.kind != "test" or not fa.cfg.is_reachable(n) or n.ast is None:
+            if n.kind != "test" or not fa.cfg.is_reachable(n) or n.ast is None or n.id in ref:
+                continue
+            if isinstance(getattr(n, "origin", None), ast.Assert):
                 continue
             parts = []
             _split_and(fa.term(n.ast, n), parts)
             hit = None
             for t in parts:
-                if not (t.k == "cmp" and t.a[0] == "==" and aggregate_only(t)):
+                if not (t.k == "cmp" and t.a[0] == "==" and _total(t.a[1]) and _total(t.a[2])):
                     continue
-                if any(is_const(x, 0) for x in (t.a[1], t.a[2])):
+                l, r = t.a[1], t.a[2]
+                # "as many elements satisfy P as there are elements" does establish P for every element: a count of a
+                # predicate (flatnonzero(x).size, count_nonzero(x), sum(x > 0)) compared with a total is a per-element test
+                def pred_count(x):
+                    return any((np_call(y, {"flatnonzero", "count_nonzero", "nonzero", "argwhere"}) is not None) or
+                               (y.k == "call" and y.a[0].k == "attr" and y.a[0].a[1] == "nonzero") or
+                               (y.k == "call" and (attr_chain(y.a[0]) or ("",))[-1] == "sum" and any(z.k == "cmp" for a_ in y.a[1] for z in walk(a_)))
+                               for y in walk(x))
+                if pred_count(l) or pred_count(r):
                     continue
-                elems = [x for x in walk(t) if x.k == "sub" and x.a[1].k in ("const", "un") and any(y.k == "attr" and y.a[1] in GEOM for y in walk(x.a[0]))]
-                arith = any(x.k == "bin" and x.a[0] in ("*", "-", "+") for x in walk(t))
-                if elems and arith:
-                    hit = t
+                if l.k == "const" or r.k == "const":
+                    # comparisons with a constant are fine (size == 0, ndim == 1, size == 1) - except "the sum is zero"
+                    other = r if l.k == "const" else l
+                    c = l if l.k == "const" else r
+                    if not (is_const(c, 0) and other.k == "call" and (attr_chain(other.a[0]) or ("",))[-1] == "sum"):
+                        continue
+                hit = t
             if hit is None:
                 continue
-            # the true edge leads to a return before the general path
-            true_edges = [e for e in n.succ if e.kind == "edge" and e.info[1] is True]
-            rets = fa.cfg.returns()
-            fast = [r for r in rets if any(fa.cfg.dominates(e, r) for e in true_edges)]
-            if fast and len(rets) > len(fast):
-                ctx.violated(rule, f, "a shortcut for uniform / contiguous rows is guarded by a per-row check, not by an equality of totals",
-                             "`%s` compares totals built from single rows: it also holds for rows of unequal length (2, 1, 3) or rows out of order, for which `%s` is wrong" % (
-                                 hit, ast.unparse(fast[0].ast)[:80]), node=n.ast, engine="KB")
+            ctx.violated(rule, f, "a shortcut is selected by a per-element check, not by an equality of totals",
+                         "`%s` compares scalar totals: it also holds for inputs the shortcut is wrong for (rows of lengths (2, 1, 3) or (2, 0); positions out of order; "
+                         "a repeated key in a vector as long as the key set; initial values that cancel)" % (hit,), node=n.ast, engine="KB")
 
 
 def _split_and(t, out):
@@ -714,6 +749,232 @@ def h26_class_level_cache(ctx, tk, rule, funcs):
                 ctx.holds(rule, f, what, node=x, engine="KB")
 
 
+def _tainted_names(body, seeds):
+    """local names whose value derives from the names in `seeds`: assignments, loop targets, comprehension targets and
+    X.append / X.extend / X.insert of a derived value (syntactic fixpoint, flow-insensitive)"""
+    t = set(seeds)
+    mod = ast.Module(body=list(body), type_ignores=[])
+
+    def mentions(e):
+        return any(isinstance(y, ast.Name) and y.id in t for y in ast.walk(e))
+    changed = True
+    while changed:
+        changed = False
+        for x in ast.walk(mod):
+            new = []
+            if isinstance(x, ast.Assign) and mentions(x.value):
+                for tg in x.targets:
+                    new += [y.id for y in ast.walk(tg) if isinstance(y, ast.Name)]
+            elif isinstance(x, ast.AugAssign) and mentions(x.value) and isinstance(x.target, ast.Name):
+                new.append(x.target.id)
+            elif isinstance(x, (ast.For, ast.comprehension)) and mentions(x.iter):
+                new += [y.id for y in ast.walk(x.target) if isinstance(y, ast.Name)]
+            elif isinstance(x, ast.Call) and isinstance(x.func, ast.Attribute) and x.func.attr in ("append", "extend", "insert") and isinstance(x.func.value, ast.Name) \
+                    and any(mentions(a) for a in x.args):
+                new.append(x.func.value.id)
+            for nm in new:
+                if nm not in t:
+                    t.add(nm)
+                    changed = True
+    return t
+
+
+def h27_positional_arguments_dropped(ctx, tk, rule, funcs):
+    """a function (or lambda) that receives the caller's positional and keyword arguments (*args / **kwargs, or the `args`,
+    `kwargs` of numpy's dispatch protocols) and hands the keyword arguments on with `**kwargs` is forwarding a call: a
+    forwarded call that uses nothing derived from the positional arguments drops them (np.sum(x, 0) behaves like np.sum(x))"""
+    done = set()
+    for f in funcs:
+        if not hasattr(f, "node") or not isinstance(f.node, (ast.FunctionDef, ast.AsyncFunctionDef)) or id(f.node) in done:
+            continue
+        done.add(id(f.node))
+        scopes_ = [f.node] + [x for x in ast.walk(f.node) if isinstance(x, ast.Lambda)]
+        for sc in scopes_:
+            a = sc.args
+            names = [x.arg for x in a.posonlyargs + a.args]
+            va = a.vararg.arg if a.vararg else ("args" if "args" in names else None)
+            kw = a.kwarg.arg if a.kwarg else ("kwargs" if "kwargs" in names else None)
+            if va is None or kw is None:
+                continue
+            body = sc.body if isinstance(sc.body, list) else [ast.Expr(value=sc.body)]
+            tainted = _tainted_names(body, {va})
+            for st in body:
+                for c in ast.walk(st):
+                    if isinstance(c, ast.Lambda) and c is not sc:
+                        continue
+                    if not (isinstance(c, ast.Call) and any(k.arg is None and isinstance(k.value, ast.Name) and k.value.id == kw for k in c.keywords)):
+                        continue
+                    uses = any(isinstance(y, ast.Name) and y.id in tainted for x in list(c.args) + [c.func] for y in ast.walk(x))
+                    ctx.decide(rule, f, "a call forwarded with **%s also forwards the positional arguments" % kw, True if uses else False,
+                               "`%s` forwards the keyword arguments but nothing of `%s`: a positional axis (np.sum(x, 0)) is silently ignored" % (ast.unparse(c)[:100], va),
+                               node=c, engine="E4")
+
+
+def h28_out_buffer_pins_dtype(ctx, tk, rule, funcs):
+    """with out= numpy does not choose the result type: it casts into the buffer.  A reduction / accumulation / concatenation
+    written into a *fresh* buffer whose dtype was copied from one operand (np.empty_like(x), np.zeros(n, dtype=x.dtype),
+    np.zeros_like(param)) loses numpy's widening (add.accumulate of int8 is int64) and promotion (int8 ++ int64 is int64)"""
+    for f in funcs:
+        fa = ctx.fa(f)
+        for n, c in find_calls(fa, lambda c: "out" in dict(c.a[2]) and (np_call(c, {"cumsum", "cumprod", "sum", "prod", "concatenate", "hstack", "vstack", "stack", "add", "multiply", "subtract"})
+                                                                     or (c.a[0].k == "attr" and c.a[0].a[1] in ("accumulate", "reduce", "reduceat")))):
+            out = dict(c.a[2])["out"]
+            srcs = []
+            for a in alts(out):
+                base = a
+                for _ in range(6):
+                    if base.k in ("sub", "upd"):
+                        base = base.a[0]
+                    elif base.k == "call" and base.a[0].k == "attr" and base.a[0].a[1] in ("ravel", "reshape", "view", "flatten"):
+                        base = base.a[0].a[0]
+                    else:
+                        break
+                nm = np_call(base, {"empty_like", "zeros_like", "ones_like", "empty", "zeros", "ones", "full"})
+                if not nm:
+                    continue
+                dt = dict(base.a[2]).get("dtype")
+                if nm.endswith("_like"):
+                    if dt is None:
+                        srcs.append((base, "the dtype of `%s`" % (base.a[1][0],)))
+                elif dt is not None and dt.k == "attr" and dt.a[1] == "dtype" and not any(x.k == "call" and (attr_chain(x.a[0]) or ("",))[-1] in ("result_type", "promote_types") for x in walk(dt)):
+                    srcs.append((base, "`%s`" % (dt,)))
+            if srcs:
+                ctx.violated(rule, f, "a result computed with out= keeps the type numpy would choose",
+                             "`%s` writes into `%s`, typed by %s: numpy casts the result into that type instead of widening / promoting it (int8 data accumulate in int8 "
+                             "and wrap; a wider second operand is cut down)" % (c, srcs[0][0], srcs[0][1]), node=c.node, engine="KB")
+
+
+def h29_unsigned_cast_to_signed(ctx, tk, rule, funcs):
+    """data.astype(np.int64 / int) reachable for unsigned data: values of 2**63 and above become negative.  numpy's own
+    widening keeps unsigned data unsigned (uint8 sums in uint64)"""
+    from .guards import reachable_under
+    subj = lambda t: t.k == "attr" and t.a[1] == "dtype" or t.k == "param"
+    for f in funcs:
+        if not f.params:
+            continue
+        fa = ctx.fa(f)
+        reach = None
+        for n, c in find_calls(fa, lambda c: c.a[0].k == "attr" and c.a[0].a[1] == "astype" and c.a[1] and c.a[0].a[0].k == "param" and c.a[0].a[0].a[0] == f.params[0]):
+            d = c.a[1][0]
+            nm = d.a[0] if d.k == "global" else ((attr_chain(d) or ("",))[-1] if d.k != "const" else d.a[0])
+            if nm not in ("int", "int64", "int_", "intp", "i8", "int32"):
+                continue
+            if f.cls is None or not any(k.qual == "raggedarray.base.RaggedBase" or "RunLength" in k.qual for k in f.cls.mro()):
+                continue
+            if reach is None:
+                reach = reachable_under(fa, "unsigned", subj)
+            tested = any(any(x.k == "call" and (attr_chain(x.a[0]) or ("",))[-1] == "issubdtype" for x in walk(t)) for t, _tr, _ in facts_at(fa, n))
+            ctx.decide(rule, f, "unsigned data is never converted to a signed integer type before it is reduced", (False if tested else None) if n.id in reach else True,
+                       "`%s` is reached for unsigned data: uint64 values of 2**63 and above turn negative" % (c,), node=c.node, engine="KB")
+
+
+def h31_issubdtype_builtin(ctx, tk, rule, funcs):
+    """np.issubdtype(d, int) asks for numpy's default integer (int64) and its subtypes only: int32, uint8 ... are not
+    subtypes of it (np.integer is the abstract class); likewise float means float64 only"""
+    for f in funcs:
+        fa = ctx.fa(f)
+        for n, c in find_calls(fa, lambda c: (attr_chain(c.a[0]) or ("",))[-1] == "issubdtype" and len(c.a[1]) == 2):
+            k = c.a[1][1]
+            if k.k == "global" and k.a[0] in ("int", "float"):
+                ctx.violated(rule, f, "a dtype class test names numpy's abstract class (np.integer / np.floating)",
+                             "`%s`: `%s` is numpy's default %s only, so narrower or unsigned dtypes (int32, uint8%s) fail the test" % (
+                                 c, k.a[0], "int64" if k.a[0] == "int" else "float64", "" if k.a[0] == "int" else ", float32"), node=c.node, engine="KB")
+
+
+def h32_unstable_second_sort(ctx, tk, rule, funcs):
+    """sorting by a secondary key and then by the primary key reproduces a lexicographic sort only if the second sort is
+    stable; np.argsort's default (quicksort / introsort) is stable only by accident on short inputs"""
+    for f in funcs:
+        fa = ctx.fa(f)
+        for n, c in find_calls(fa, lambda c: np_call(c, {"argsort"}) and c.a[1]):
+            kind = dict(c.a[2]).get("kind")
+            if kind is not None and any(is_const(k, v) for k in alts(kind) for v in ("stable", "mergesort")):
+                continue
+            arg = c.a[1][0]
+            pre_ordered = any(x.k == "sub" and any(np_call(y, {"argsort", "lexsort"}) for y in walk(x.a[1])) for x in walk(arg))
+            if pre_ordered:
+                ctx.violated(rule, f, "a sort that refines an earlier ordering is stable",
+                             "`%s` sorts keys that were already ordered by another key, without kind=\"stable\": equal keys lose the earlier order as soon as the input is "
+                             "longer than numpy's insertion-sort threshold (about 16 elements)" % (c,), node=c.node, engine="KB")
+
+
+def h33_truth_of_index_array(ctx, tk, rule, funcs):
+    """np.flatnonzero / nonzero / where(cond) return *positions*: .any() / np.any() / bool() of them asks whether some
+    position is non-zero, not whether a position exists ([0].any() is False); the existence test is .size"""
+    def positions(t):
+        for a in alts(t):
+            if np_call(a, {"flatnonzero", "argwhere"}):
+                return True
+            if a.k == "item" and a.a[0].k == "call" and (np_call(a.a[0], {"nonzero", "where"}) or (a.a[0].a[0].k == "attr" and a.a[0].a[0].a[1] == "nonzero")):
+                return True
+        return False
+    for f in funcs:
+        fa = ctx.fa(f)
+        for n, c in find_calls(fa, lambda c: (np_call(c, {"any", "all"}) and c.a[1]) or (c.a[0].k == "attr" and c.a[0].a[1] in ("any", "all") and not c.a[1])):
+            subj = c.a[1][0] if np_call(c, {"any", "all"}) else c.a[0].a[0]
+            if positions(subj):
+                ctx.violated(rule, f, "whether an index array selects anything is asked with .size, not with its truth value",
+                             "`%s`: the array holds positions; when the only position is 0 the test is False although something was found" % (c,), node=c.node, engine="KB")
+
+
+def h34_shallow_copy_keeps_memos(ctx, tk, rule, funcs):
+    """copy(self) / copy.copy(self) bypasses __init__: every per-object memo (an attribute the constructor sets to None and a
+    method fills on demand) travels with the copy.  If the copy then gets a different geometry / buffer, the memo describes the
+    original, not the copy, unless it is reset"""
+    for f in funcs:
+        if f.cls is None or not f.params:
+            continue
+        selfn = f.params[0]
+        memos = set()
+        for c in f.cls.mro():
+            init = c.methods.get("__init__")
+            if init is None:
+                continue
+            for x in ast.walk(init.node):
+                if isinstance(x, ast.Assign) and isinstance(x.value, ast.Constant) and x.value.value is None:
+                    for tg in x.targets:
+                        if isinstance(tg, ast.Attribute) and isinstance(tg.value, ast.Name) and tg.value.id == init.params[0]:
+                            memos.add(tg.attr)
+        if not memos:
+            continue
+        for x in ast.walk(f.node):
+            if not (isinstance(x, ast.Assign) and isinstance(x.value, ast.Call) and len(x.targets) == 1 and isinstance(x.targets[0], ast.Name)):
+                continue
+            fn = x.value.func
+            nm = fn.id if isinstance(fn, ast.Name) else (fn.attr if isinstance(fn, ast.Attribute) else None)
+            if nm not in ("copy", "deepcopy") or not (x.value.args and isinstance(x.value.args[0], ast.Name) and x.value.args[0].id == selfn):
+                continue
+            var = x.targets[0].id
+            stored = {t.attr for y in ast.walk(f.node) if isinstance(y, ast.Assign) for t in y.targets
+                      if isinstance(t, ast.Attribute) and isinstance(t.value, ast.Name) and t.value.id == var}
+            changed = stored - memos
+            kept = sorted(memos - stored)
+            if changed and kept:
+                ctx.violated(rule, f, "an object derived by copying resets the memos that depend on what is changed",
+                             "`%s` copies self including its memo attribute(s) %s, then replaces %s: a value cached on the original (e.g. its size) is reported by the derived "
+                             "object" % (ast.unparse(x), ", ".join(kept), ", ".join(sorted(changed))), node=x, engine="E3")
+
+
+def h36_strict_negative_bound(ctx, tk, rule, funcs):
+    """valid negative indices run from -len to -1: a refusal written `-len(x) < i` (strict) turns the valid index -len
+    away; `i <= len(x)` accepts the invalid index len"""
+    from .guards import refusals
+    for f in funcs:
+        fa = ctx.fa(f)
+        for tn, _truth in refusals(fa):
+            for x in ast.walk(tn.ast):
+                if not isinstance(x, ast.Compare):
+                    continue
+                ops = list(zip([x.left] + x.comparators[:-1], x.ops, x.comparators))
+                for l, op, r in ops:
+                    def neg_len(e):
+                        return isinstance(e, ast.UnaryOp) and isinstance(e.op, ast.USub) and isinstance(e.operand, ast.Call) and isinstance(e.operand.func, ast.Name) and e.operand.func.id == "len"
+                    strict_low = (neg_len(l) and isinstance(op, ast.Lt)) or (neg_len(r) and isinstance(op, ast.Gt))
+                    if strict_low:
+                        ctx.violated(rule, f, "an index check admits every index from -len to len - 1",
+                                     "`%s` excludes the index -len(...) itself, which addresses the first element" % ast.unparse(x), node=x, engine="KB")
+
+
 def generic(ctx, tk, rule, funcs, skip=()):
     """all deviance-form hazard rules over a property's function scope"""
     fs = [f for f in funcs if f.qual not in skip]
@@ -741,6 +1002,14 @@ def generic(ctx, tk, rule, funcs, skip=()):
     h24_memory_layout_as_shape(ctx, tk, rule + "/H24", fs)
     h25_totals_equality_fast_path(ctx, tk, rule + "/H25", fs)
     h26_class_level_cache(ctx, tk, rule + "/H26", fs)
+    h27_positional_arguments_dropped(ctx, tk, rule + "/H27", fs)
+    h28_out_buffer_pins_dtype(ctx, tk, rule + "/H28", fs)
+    h29_unsigned_cast_to_signed(ctx, tk, rule + "/H29", fs)
+    h31_issubdtype_builtin(ctx, tk, rule + "/H31", fs)
+    h32_unstable_second_sort(ctx, tk, rule + "/H32", fs)
+    h33_truth_of_index_array(ctx, tk, rule + "/H33", fs)
+    h34_shallow_copy_keeps_memos(ctx, tk, rule + "/H34", fs)
+    h36_strict_negative_bound(ctx, tk, rule + "/H36", fs)
     from . import wellformed as _W
     _W.report_constant_truth(ctx, tk, rule, fs)
     # H19 (raw ufunc identity stored) depends on which ufunc the caller chose: it is applied by C05 only, where the
